@@ -71,7 +71,12 @@ type Server struct {
 
 // Serves the connection once we accepted it
 func (server *Server) serveConn(conn net.Conn) {
-	defer recover()
+	defer func() {
+		// recover must be called directly by the deferred function
+		if r := recover(); r != nil {
+			server.logf("panic serving %s: %v", conn.RemoteAddr(), r)
+		}
+	}()
 	defer conn.Close()
 
 	hijackedConn := hack.NewHijackClientHelloConn(conn)
